@@ -56,13 +56,4 @@ GibbsInit == [mps |-> 2]
 GibbsStep(o, K) == [mps |-> IF o.mps + 1 > K + 1 THEN o.mps ELSE o.mps + 1]
 GibbsClosed(step, K) == [mps |-> Min2(step, K) + 1]
 
-\* ---------------------------------------------------------------- bond dimensions
-\* a bond that separates a sites on the left from b sites on the right, every site with at most D physical values,
-\* never exceeds D^min(a, b) (exponents beyond 6 are not bounded here: 32-bit integers)
-RECURSIVE Pow(_, _)
-Pow(D, e) == IF e = 0 THEN 1 ELSE D * Pow(D, e - 1)
-BondOk(b, D, a, c) == b >= 1 /\ (Min2(a, c) <= 6 => b <= Pow(D, Min2(a, c)))
-BondsOk(bonds, mps, D) ==
-    /\ Len(bonds) = mps - 1
-    /\ \A i \in 1..Len(bonds) : BondOk(bonds[i], D, i, mps - i)
 =============================================================================
